@@ -29,6 +29,9 @@ def pool(tier):
           ([P], gen.cross(['P'], ['P'], [{'c': 'Pin', 'index': 0, 'factor': 'P', 'level': 'p0'}])),
           ([A], gen.cross(['A'], ['A'])),
           ([Q, A], gen.cross(['Q', 'A'], ['Q'])) if False else ([Q], gen.cross(['Q'], ['Q'], [{'c': 'AtMostKInARow', 'k': 1, 'factor': 'Q', 'level': 'q0'}]))]
+    # a Pin that is not at the first trial (its position must be scaled by every enclosing Nest)
+    R2 = gen.basic('R', 2)
+    ps.append(([R2], gen.cross(['R'], ['R'], [{'c': 'Pin', 'index': 1, 'factor': 'R', 'level': 'r0'}])))
     if tier == 'thorough':
         ps.append(([C], gen.cross(['C'], ['C'])))
     return ps
